@@ -315,6 +315,34 @@ impl<'a> Gen<'a> {
                 let r = self.scalar(scope, K::T, depth - 1);
                 Some(X::Bin(b(l), BinOper::PgOperator(sea_query::extension::postgres::PgBinOper::Concatenate), b(r)))
             }
+            3 if d == Dialect::Postgres && self.rng.coin() => {
+                let t = |g: &mut Self| g.scalar(scope, K::T, depth - 1);
+                Some(match self.rng.below(8) {
+                    0 => {
+                        let f = *self.rng.pick(&["TO_TSQUERY", "TO_TSVECTOR", "PHRASETO_TSQUERY", "PLAINTO_TSQUERY", "WEBSEARCH_TO_TSQUERY"]);
+                        X::Func(f, vec![t(self)])
+                    }
+                    1 => {
+                        let (v, q) = (X::Func("TO_TSVECTOR", vec![t(self)]), X::Func("TO_TSQUERY", vec![self.text_val()]));
+                        X::Func(if self.rng.coin() { "TS_RANK" } else { "TS_RANK_CD" }, vec![v, q])
+                    }
+                    2 => {
+                        let (x0, x1) = (t(self), self.text_val());
+                        X::Func("STARTS_WITH", vec![x0, x1])
+                    }
+                    3 => X::Func("GEN_RANDOM_UUID", vec![]),
+                    4 => {
+                        let (k0, v0) = (self.text_val(), self.scalar(scope, k, depth - 1));
+                        X::Func("JSON_BUILD_OBJECT", vec![k0, v0])
+                    }
+                    5 => {
+                        let (k0, v0, k1, v1) = (self.text_val(), self.scalar(scope, k, depth - 1), self.text_val(), self.int_val());
+                        X::Func("JSON_BUILD_OBJECT", vec![k0, v0, k1, v1])
+                    }
+                    6 => X::Func("JSON_AGG", vec![self.scalar(scope, k, depth - 1)]),
+                    _ => X::Func("ARRAY_AGG", vec![self.scalar(scope, k, depth - 1)]),
+                })
+            }
             3 => Some(match self.rng.below(5) {
                 0 => X::Cust(if k == K::T { "CURRENT_USER".into() } else { "PI".into() }),
                 1 => X::Kw(*self.rng.pick(&["CURRENT_TIMESTAMP", "CURRENT_DATE", "CURRENT_TIME"])),
